@@ -53,6 +53,7 @@ type Stats struct {
 	SolverErrors   int
 	Unknowns       int
 	Steps          int64
+	Pruned         int64 // branch sides dropped by value-set evaluation (no solver call)
 	Cuts           int
 	MaxDepth       int
 	AssertReach    map[string]int
